@@ -8,7 +8,7 @@
            session     id;node;payload;modify;check+check+…      (check list may be empty)
            peering     id;payload;modify        trust bundle   peerName;payload;modify
          lists are comma separated, `-` = empty; strings in the CV.Proto encoding.
-   out:  last=<header LastIndex> idx=… kvs=… tombs=… sess=… sc=<node;check;session,…> peer=… tb=… stream=<kind:count,…>
+   out:  last=<header LastIndex> idx=… kvs=… tombs=… sess=… sc=<node;check;session,…> peer=… tb=… stream=<kind:count,…> usage=<count;index of usage row "kvs", or ->
          computed as  restore (snapshot s)  by the model functions the theorems are about. -/
 import CV.Snap
 namespace CV.Engine.C02
@@ -61,7 +61,10 @@ def step (_ : Unit) (toks : List String) : Unit × String :=
       let st : Snap.State := ⟨idx, kvs, tombs, sess, [], peer, bund⟩
       let sn := snapshot st
       let r := restore sn
-      ((), s!"last={sn.last} idx={encIdx r.index} kvs={encKVs r.kvs} tombs={encTombs r.tombs} sess={encSess r.sessions} sc={encSC r.sessionChecks} peer={encLate r.peerings} tb={encLate r.bundles} stream={encRuns (kindRuns sn.recs)}")
+      let usage := match usageKvsAfterRestore r with
+        | some (c, i) => s!"{c};{i}"
+        | none => "-"
+      ((), s!"last={sn.last} idx={encIdx r.index} kvs={encKVs r.kvs} tombs={encTombs r.tombs} sess={encSess r.sessions} sc={encSC r.sessionChecks} peer={encLate r.peerings} tb={encLate r.bundles} stream={encRuns (kindRuns sn.recs)} usage={usage}")
     | _, _, _, _, _, _ => ((), "bad-op")
   | _ => ((), "bad-op")
 
